@@ -13,19 +13,21 @@ From TT Require Import Capture.LayerProofs.
 (** The whole captured forest — spans and events the filter enabled, in emission order, metadata,
     values, parent links, child / event / follows-from lists, root lists, enter and exit counts, closed
     flags — is the one the specification prescribes.  For every filter (any predicate on metadata),
-    every well-formed single-threaded program and every id assignment. *)
+    every well-formed program - its operations assigned to threads in any way, i.e. every interleaving at
+    callback granularity of any number of threads (enter / exit on the issuing thread's own stack) -
+    and every id assignment. *)
 Theorem C05_capture_refines_spec :
   forall (filter : cs_data -> bool) (ids : list N) (p : prog),
-    wf_prog p -> single_threaded p = true ->
+    wf_prog p ->
     storage_of (layer_run filter ids p) = Some (spec_storage filter ids p).
 Proof.
-  exact (fun filter ids p Hwf Hst => capture_refines_spec filter ids p (wf_prog_stale_of_wf p Hwf) Hst).
+  exact (fun filter ids p Hwf => capture_refines_spec filter ids p (wf_prog_stale_of_wf p Hwf)).
 Qed.
 
 (** the same for programs that also name stale ids in follows-from (the programs of C16) *)
 Theorem C05_capture_refines_spec_stale :
   forall (filter : cs_data -> bool) (ids : list N) (p : prog),
-    wf_prog_stale p -> single_threaded p = true ->
+    wf_prog_stale p ->
     storage_of (layer_run filter ids p) = Some (spec_storage filter ids p).
 Proof. exact capture_refines_spec. Qed.
 
@@ -35,7 +37,7 @@ Proof. exact capture_refines_spec. Qed.
     exactly the spans that are open in the specification; closed flags = spans the Registry closed. *)
 Theorem C05_run_invariants :
   forall (filter : cs_data -> bool) (ids : list N) (p : prog),
-    wf_prog_stale p -> single_threaded p = true ->
+    wf_prog_stale p ->
     exists r st symf,
       layer_run filter ids p = ROk (r, st) /\ sym_run true p = Some symf /\
       reg_inv symf r /\
